@@ -226,7 +226,9 @@ namespace fs
             }
             iterator end() const
             {
-                if (split->small_note) // small note have no aligned parts, but apbegin > apend (means empty)
+                // small note have no aligned parts, but apbegin > apend (means empty); so does an
+                // empty range at an un-aligned offset (whose small_note is empty as well)
+                if (split->small_note || split->apbegin > split->apend)
                     return iterator(split, split->apbegin); // therefore, end() should return apbegin for range-based loop
                 return iterator(split, split->apend);
             }
